@@ -15,8 +15,29 @@ func (in *Interp) foreign(fn *types.Func, recv Value, x *ast.CallExpr) []Value {
 	sig := fn.Type().(*types.Signature)
 	switch name {
 	case "errors.New", "fmt.Errorf", "github.com/pkg/errors.New", "github.com/pkg/errors.Errorf":
-		return []Value{&ErrVal{True}}
+		tag := ""
+		if fr := in.fr(); fr != nil && strings.HasPrefix(fr.fn, "init:") {
+			tag = fr.fn + "@" + fr.pkg.Fset.Position(x.Pos()).String() // a package-level sentinel
+		}
+		return []Value{&ErrVal{NonNil: True, Tag: tag}}
 	case "github.com/pkg/errors.Wrap", "github.com/pkg/errors.Wrapf", "github.com/pkg/errors.WithStack":
+		// a new error object (nil for a nil argument) that remembers what it wraps
+		if ev, ok := asErr(in.expr(x.Args[0])).(*ErrVal); ok {
+			cause := ev.Cause
+			if cause == "" {
+				cause = ev.Tag
+			}
+			return []Value{&ErrVal{NonNil: ev.NonNil, Cause: cause}}
+		}
+		return []Value{asErr(in.expr(x.Args[0]))}
+	case "github.com/pkg/errors.Cause":
+		if ev, ok := asErr(in.expr(x.Args[0])).(*ErrVal); ok {
+			tag := ev.Cause
+			if tag == "" {
+				tag = ev.Tag
+			}
+			return []Value{&ErrVal{NonNil: ev.NonNil, Tag: tag}}
+		}
 		return []Value{asErr(in.expr(x.Args[0]))}
 	case "fmt.Sprintf", "fmt.Sprint":
 		return []Value{&StrVal{}}
@@ -167,9 +188,9 @@ func (in *Interp) foreign(fn *types.Func, recv Value, x *ast.CallExpr) []Value {
 			in.fail(x, "aes key is %T", args[0])
 		}
 		if key.Len() != 16 && key.Len() != 24 && key.Len() != 32 {
-			return []Value{NilVal{}, &ErrVal{True}}
+			return []Value{NilVal{}, &ErrVal{NonNil: True}}
 		}
-		return []Value{&Opaque{Kind: "aes", Args: in.snapshot(key)}, &ErrVal{False}}
+		return []Value{&Opaque{Kind: "aes", Args: in.snapshot(key)}, &ErrVal{NonNil: False}}
 	case "crypto/cipher.NewCBCDecrypter", "crypto/cipher.NewCBCEncrypter":
 		args := in.args(x, sig)
 		blk, ok := args[0].(*Opaque)
@@ -189,9 +210,9 @@ func (in *Interp) foreign(fn *types.Func, recv Value, x *ast.CallExpr) []Value {
 			in.fail(x, "cmac key is %T", args[0])
 		}
 		if key.Len() != 16 && key.Len() != 24 && key.Len() != 32 {
-			return []Value{NilVal{}, &ErrVal{True}}
+			return []Value{NilVal{}, &ErrVal{NonNil: True}}
 		}
-		return []Value{&Opaque{Kind: "cmac", Args: in.snapshot(key), State: &Cell{&Slice{Back: &Backing{}}}}, &ErrVal{False}}
+		return []Value{&Opaque{Kind: "cmac", Args: in.snapshot(key), State: &Cell{&Slice{Back: &Backing{}}}}, &ErrVal{NonNil: False}}
 	}
 	if recv != nil {
 		if o, ok := recv.(*Opaque); ok && o.Kind != "extern" {
@@ -403,7 +424,7 @@ func (in *Interp) opaqueMethod(o *Opaque, method string, x *ast.CallExpr) []Valu
 			bk.E = append(bk.E, &Cell{v})
 		}
 		in.store(o.State, &Slice{Back: bk, Hi: len(bk.E), Cap: len(bk.E), Elem: types.Typ[types.Uint8]})
-		return []Value{in.D.Const(int64(src.Len()), 64, true), &ErrVal{False}}
+		return []Value{in.D.Const(int64(src.Len()), 64, true), &ErrVal{NonNil: False}}
 	case "cmac.Sum":
 		pre := in.expr(x.Args[0])
 		var prefix []Value
